@@ -183,6 +183,40 @@ func (e *e2) external(f *ssa.Function, in ssa.CallInstruction, val ssa.Value, ob
 		case pkg == "sort" && (name == "Ints" || name == "Slice" || name == "Strings" || name == "Float64s" || name == "SliceStable"):
 			e.recordSite(mutSite{fn: f, instr: in, what: "sort." + name, target: operands[0], levels: "HD"})
 			return
+		case pkg == "slices" && (name == "Contains" || name == "ContainsFunc" || name == "Index" || name == "IndexFunc" || name == "Equal" || name == "Max" || name == "Min" || name == "IsSorted" || name == "BinarySearch"):
+			return // read their operands, return a scalar
+		case pkg == "slices" && name == "Clone":
+			// a new list holding the same elements
+			if len(operands) > 0 && isContainerOfRefs(operands[0].Type()) {
+				setRes(0, withLevels(e.get(operands[0]), "HD", true))
+			}
+			return
+		case pkg == "slices" && (name == "Sort" || name == "SortFunc" || name == "SortStableFunc" || name == "Reverse"):
+			lv := "HD"
+			if isContainerOfRefs(operands[0].Type()) {
+				lv = "C"
+			}
+			e.recordSite(mutSite{fn: f, instr: in, what: "slices." + name, target: operands[0], levels: lv})
+			return
+		case pkg == "slices" && (name == "Delete" || name == "Insert" || name == "Compact" || name == "Grow" || name == "Clip"):
+			if name == "Delete" || name == "Insert" || name == "Compact" {
+				lv := "HD"
+				if isContainerOfRefs(operands[0].Type()) {
+					lv = "C"
+				}
+				e.recordSite(mutSite{fn: f, instr: in, what: "slices." + name, target: operands[0], levels: lv})
+			}
+			t := tokset{}
+			t.addAll(e.get(operands[0]))
+			setRes(0, t)
+			return
+		case pkg == "maps" && name == "Copy":
+			e.recordSite(mutSite{fn: f, instr: in, what: "MapUpdate", target: operands[0], levels: "C"})
+			e.addTo(baseOf(operands[0]), withLevels(e.get(operands[1]), "HD", true))
+			return
+		case pkg == "maps" && name == "Clone":
+			setRes(0, withLevels(e.get(operands[0]), "HD", true))
+			return
 		case pkg == "bytes" && isMethod && name == "Read":
 			e.recordSite(mutSite{fn: f, instr: in, what: "Read", target: operands[1], levels: "HD"})
 			return
